@@ -420,3 +420,92 @@ func ctxHandoffCase(k *engine.Case) {
 	}
 	stop()
 }
+
+type callerKey struct{}
+
+// sharedCallCtxCase: a call object (function + request) is immutable, so two callers may submit
+// the same one while an earlier submission of it is still pending. Every submission is a call
+// of its own: the function runs once per submission, with the submitting caller's context, and
+// each caller gets the result of its own submission.
+func sharedCallCtxCase(k *engine.Case) {
+	r := k.R
+	useMline := r.Intn(2) == 0
+	d := engine.NewDriver(Q, k)
+	gate := make(chan struct{})
+	var runs int32
+	fn := func(ctx context.Context) (interface{}, error) {
+		atomic.AddInt32(&runs, 1)
+		who, _ := ctx.Value(callerKey{}).(string)
+		if who == "gate" {
+			<-gate
+		}
+		return "ran for " + who, nil
+	}
+	var submit func(who string) (interface{}, error)
+	var stop func()
+	name := "line.Line"
+	if useMline {
+		name = "mline.MultiLine"
+		m := mline.NewMultiLine(pipe.WithSlotSize(1+r.Intn(3)), pipe.WithQSize(0))
+		m.Run()
+		cc := mline.NewCallCtx(7, func(ctx context.Context, idx int, req interface{}) (interface{}, error) { return fn(ctx) }, nil)
+		submit = func(who string) (interface{}, error) {
+			return m.AsyncCall(context.WithValue(context.Background(), callerKey{}, who), cc)
+		}
+		stop = func() { m.Stop(); m.WaitStop(context.Background()) }
+	} else {
+		wg := &sync.WaitGroup{}
+		l := line.NewLine(wg, line.WithName("verif"))
+		l.Run()
+		cc := line.NewCallCtx(func(ctx context.Context, req interface{}) (interface{}, error) { return fn(ctx) }, nil)
+		submit = func(who string) (interface{}, error) {
+			return l.AsyncCall(context.WithValue(context.Background(), callerKey{}, who), cc)
+		}
+		stop = func() { l.Stop(); wg.Wait() }
+	}
+	k.Logf("%s: one call object submitted by a gate caller (blocks the lane) and by %s while that is pending", name, "alice and bob")
+	k.Nontrivial()
+	spawn := func(who string) *engine.Op {
+		return d.Spawn("submit by "+who, func() any { v, err := submit(who); return callRes{v, err} })
+	}
+	g := spawn("gate")
+	if !d.Quiesce() {
+		close(gate)
+		return
+	}
+	a := spawn("alice")
+	if !d.Quiesce() {
+		close(gate)
+		return
+	}
+	b := spawn("bob")
+	if !d.Quiesce() {
+		close(gate)
+		return
+	}
+	close(gate)
+	if !d.Quiesce() {
+		return
+	}
+	k.Evals(1)
+	k.Count("shared_callctx_cases", 1)
+	for who, o := range map[string]*engine.Op{"gate": g, "alice": a, "bob": b} {
+		if !o.Done() {
+			k.Fail("caller-stuck", "%s: the submission by %s of a shared call object never returned (the function ran %d times): %v", name, who, atomic.LoadInt32(&runs), Q.Describe())
+			return
+		}
+		cr, _ := o.Result().(callRes)
+		if cr.err != nil || cr.v != "ran for "+who {
+			k.Fail("wrong-result", "%s: %s submitted a call object that two other callers also had pending and got (%v, %v); its own call returns (%q, nil); the function ran %d times for 3 submissions", name, who, cr.v, cr.err, "ran for "+who, atomic.LoadInt32(&runs))
+			return
+		}
+	}
+	if n := atomic.LoadInt32(&runs); n != 3 {
+		k.Fail("wrong-result", "%s: 3 submissions of one call object, the function ran %d times", name, n)
+		return
+	}
+	s := d.Spawn("stop", func() any { stop(); return nil })
+	if d.Quiesce() && !s.Done() {
+		k.Fail("lanes-not-terminated", "%s: Stop + wait did not return: %v", name, Q.Describe())
+	}
+}
